@@ -38,6 +38,11 @@ var solvers = []SolverCfg{
 	{"cvc5", func(f string, t, seed int) []string {
 		return []string{"cvc5", fmt.Sprintf("--tlimit=%d", t*1000), fmt.Sprintf("--seed=%d", seed), f}
 	}},
+	// pure E-matching configuration: quick on quantified goals; an "unknown" from it
+	// usually means a fact is missing rather than that the search was too short
+	{"z3-new-em", func(f string, t, seed int) []string {
+		return []string{"z3-new", "-smt2", fmt.Sprintf("-T:%d", t), "smt.auto_config=false", "smt.mbqi=false", fmt.Sprintf("smt.random_seed=%d", seed), f}
+	}},
 }
 
 const maxQueryBytes = 4 << 20
